@@ -630,6 +630,19 @@ func init() {
 					}
 				}
 			}
+			if tier == "quick" {
+				// the iterator-driven kernels are generated per element type, operand order and result kind: every ordered dtype
+				// with a sliced operand, scalar on either side, bool / same-type / unsafe results
+				for oi, op := range cmpOps {
+					for di, dt := range ordDtypes {
+						for fi, form := range []string{"TS", "ST"} {
+							for vi, v := range []string{"bool", "same", "unsafe"} {
+								add(dt, op, form, []int{2, 3}, []string{"S", "T", "SS"}[(oi+di+vi+fi)%3], "C", "func", v, "C")
+							}
+						}
+					}
+				}
+			}
 			ldts := []string{"int64", "float64", "int8"}
 			if tier == "thorough" {
 				ldts = ordDtypes
